@@ -435,7 +435,10 @@ def evaluate__sum(self: XPathFunction, context: ta.ContextType = None) -> ta.One
         result = sum(values) if len(values) > 1 else values[0]
     elif all(isinstance(x, DayTimeDuration) for x in values) or \
             all(isinstance(x, YearMonthDuration) for x in values):
-        result = sum(values[1:], start=values[0])
+        try:
+            result = sum(values[1:], start=values[0])
+        except OverflowError as err:
+            raise self.error('FODT0002', err) from None
     elif any(isinstance(x, Duration) for x in values):
         raise self.error('FORG0006', 'invalid sum of duration values')
     elif any(isinstance(x, (StringProxy, AnyURI)) for x in values):
